@@ -44,7 +44,7 @@ func simpleSide(s *ssa.BasicBlock) (string, bool) {
 			}
 			return "jump", true
 		case *ssa.Return:
-			if !last || len(x.Results) != 0 {
+			if !last || len(x.Results) > 1 {
 				return "", false
 			}
 			return "ret", true
@@ -64,7 +64,10 @@ func hasPhi(b *ssa.BasicBlock) bool {
 }
 
 // ifConvert tries to execute the If at the end of block b without forking.
-// Returns (join block, returned, ok).
+// Returns (join block, returned, ok). When the sides return a scalar each,
+// the merged result (ite) is left in fr.ifRet. When the join block starts
+// with phis of scalars, their merged values are set and fr.phiDone tells
+// runBlock not to evaluate them again.
 func (in *Interp) ifConvert(fr *Frame, b *ssa.BasicBlock, c *Term) (*ssa.BasicBlock, bool, bool) {
 	T, F := b.Succs[0], b.Succs[1]
 	kT, okT := simpleSide(T)
@@ -88,8 +91,33 @@ func (in *Interp) ifConvert(fr *Frame, b *ssa.BasicBlock, c *Term) (*ssa.BasicBl
 	default:
 		return nil, false, false
 	}
+	// the predecessor of join on each side (the side block, or b itself on
+	// the empty side of a one-armed if)
+	predOf := map[*ssa.BasicBlock]*Term{}
 	if join != nil && hasPhi(join) {
-		return nil, false, false
+		for _, sd := range sides {
+			predOf[sd.blk] = sd.pred
+		}
+		if len(sides) == 1 {
+			predOf[b] = in.tt.Not(sides[0].pred)
+		}
+		if len(join.Preds) != 2 {
+			return nil, false, false
+		}
+		for _, pr := range join.Preds {
+			if _, ok := predOf[pr]; !ok {
+				return nil, false, false
+			}
+		}
+	}
+	retVals := 0
+	if ret {
+		nT := len(T.Instrs[len(T.Instrs)-1].(*ssa.Return).Results)
+		nF := len(F.Instrs[len(F.Instrs)-1].(*ssa.Return).Results)
+		if nT != nF {
+			return nil, false, false
+		}
+		retVals = nT
 	}
 	nStores := 0
 	for _, s := range sides {
@@ -99,7 +127,7 @@ func (in *Interp) ifConvert(fr *Frame, b *ssa.BasicBlock, c *Term) (*ssa.BasicBl
 			}
 		}
 	}
-	if nStores == 0 {
+	if nStores == 0 && retVals == 0 && !(join != nil && hasPhi(join)) {
 		// nothing to merge: both sides are empty — no fork needed at all
 		if ret {
 			return nil, true, true
@@ -154,6 +182,69 @@ func (in *Interp) ifConvert(fr *Frame, b *ssa.BasicBlock, c *Term) (*ssa.BasicBl
 			}
 		}
 	}()
+	// merged results: return values and phis
+	type pv struct {
+		pred *Term
+		v    Val
+	}
+	merge := func(vs []pv) (Val, bool) {
+		var t *Term
+		w := uint8(0)
+		for _, e := range vs {
+			pred, v := e.pred, e.v
+			sc, isSc := v.(Sc)
+			if !isSc || sc.W == 0 || (w != 0 && sc.W != w) {
+				return nil, false
+			}
+			w = sc.W
+			if t == nil {
+				t = in.term(sc)
+			} else {
+				t = in.tt.Ite(pred, in.term(sc), t)
+			}
+		}
+		return in.fromTerm(t), t != nil
+	}
+	var retVal Val
+	type phiSet struct {
+		phi *ssa.Phi
+		v   Val
+	}
+	var phis []phiSet
+	if ok {
+		func() {
+			defer func() {
+				if r := recover(); r != nil {
+					ok = false
+				}
+			}()
+			if ret && retVals == 1 {
+				var vs []pv
+				for _, sd := range sides {
+					vs = append(vs, pv{sd.pred, fr.get(in, sd.blk.Instrs[len(sd.blk.Instrs)-1].(*ssa.Return).Results[0])})
+				}
+				retVal, ok = merge(vs)
+			}
+			if ok && join != nil && hasPhi(join) {
+				for _, ins := range join.Instrs {
+					phi, isPhi := ins.(*ssa.Phi)
+					if !isPhi {
+						break
+					}
+					var vs []pv
+					for i, pr := range join.Preds {
+						vs = append(vs, pv{predOf[pr], fr.get(in, phi.Edges[i])})
+					}
+					v, okm := merge(vs)
+					if !okm {
+						ok = false
+						return
+					}
+					phis = append(phis, phiSet{phi, v})
+				}
+			}
+		}()
+	}
 	if !ok {
 		for i := len(undo) - 1; i >= 0; i-- {
 			*undo[i].slot = undo[i].old
@@ -161,6 +252,11 @@ func (in *Interp) ifConvert(fr *Frame, b *ssa.BasicBlock, c *Term) (*ssa.BasicBl
 		in.steps = savedSteps
 		return nil, false, false
 	}
+	for _, ps := range phis {
+		fr.set(in, ps.phi, ps.v)
+	}
+	fr.phiDone = len(phis) > 0
+	fr.ifRet = retVal
 	in.ifConverted++
 	return join, ret, true
 }
